@@ -277,7 +277,7 @@ func genC02(c *Ctx) {
 }
 
 func genC03(c *Ctx) {
-	n := c.Scale(4000, 300000)
+	n := c.Scale(4000, 200000)
 	for k := 0; k < n; k++ {
 		p := randomPosition(c.R)
 		classifyPos(c, p)
